@@ -41,7 +41,10 @@ class P(Prop):
     ID = "C09"
     MODULE = "C09"
     THEOREMS = ([("C09_Log%d_%s" % (k, w)) for k in range(9) if k != 4 for w in ("indefinite", "integral", "knot", "deriv", "area")] +
-                ["C09_IntOfLog%d_evaluate" % k for k in range(9) if k != 4] + ["C09_Log4_indefinite", "C09_Log4_evaluate_closed", "C09_Log4_evaluate_series", "C09_Log4_deriv"])
+                ["C09_IntOfLog%d_evaluate" % k for k in range(9) if k != 4] + ["C09_Log4_indefinite", "C09_Log4_evaluate_closed", "C09_Log4_evaluate_series", "C09_Log4_deriv"] +
+                ["C09_IntOfLog%d_float" % k for k in range(9) if k != 4] + ["C09_Log%d_integral_float" % k for k in range(9) if k != 4] +
+                ["C09_float_hypotheses_hold"])
+    PINNED_EXTRA = ["C09F.v"]
     KERNELS = (["Log<Poly%d>::indefinite" % k for k in range(9)] + ["Log<Poly%d>::integral" % k for k in range(9)] +
                ["IntOfLog<Poly%d>::evaluate" % k for k in range(9)] + ["IntOfLogPoly4::evaluate"])
     RULE = ("Log<PolyK>::integral(knot) followed by evaluation at points a,b > 0 (all nine degrees; K=4 through IntOfLogPoly4), "
@@ -93,6 +96,17 @@ class P(Prop):
                 out.append(dict(op="integral_eval", ty="Log<Poly%d>" % k, cs=[C.bits(x) for x in cs], knot=None,
                                 ts=[C.bits(rng.uniform(0.1, 9)) for _ in range(2)], libm=True, meta={"class": "log_indefinite/%d" % k}))
         return out
+
+    def hyp_term(self, case, h):
+        # hypotheses of C09_LogK_integral_float: `safe` for every number of the returned form at the computed ln(knot.x)
+        k = int(case["ty"][8])
+        if k == 4 or not case.get("knot"):
+            return None
+        lt = dict((a, b) for a, b in h.get("ln", []))
+        lb = lt.get(case["knot"][0])
+        if lb is None:
+            return None
+        return "hyp_safe outs_LogInt%d %s" % (k, C.zlist(list(case["cs"]) + list(case["knot"]) + [lb]))
 
     def coq_term(self, case, h):
         k = int(case["ty"][8])
